@@ -17,7 +17,7 @@ import (
 func init() {
 	fw.Register(&fw.Prop{
 		ID: "C17",
-		Rule: "calls Add, Double, ScalarMult, ScalarBaseMult, IsOnCurve on both copies of the curve (pkg/slip10/btccurve and the internal one behind elliptic.Secp256k1()) with points {G, [k]G small/random k, lifted random x, -P, (0,0)} in pairs {random, P=Q, P=-Q, identity operand(s)} and scalars {empty, 0, 1, 2, n-1, n, n+1, n+2, 2n, 2^256-1, k with [k] hitting +-P midway, random 1..40 bytes, 0..8 leading zero bytes}; each result compared with the affine model (identity as (0,0)); algebraic identities [a]P+[b]P=[a+b]P, [n]P=O, commutativity on the library alone. " +
+		Rule: "calls Add, Double, ScalarMult, ScalarBaseMult, IsOnCurve on both copies of the curve (pkg/slip10/btccurve and the internal one behind elliptic.Secp256k1()) with points {G, [k]G small/random k, lifted random x, constructed boundary points with x or y in [n, p) or y close to 0, -P, (0,0)} in pairs {random, P=Q, P=-Q, identity operand(s)} and scalars {empty, 0, 1, 2, n-1, n, n+1, n+2, 2n, 2^256-1, k with [k] hitting +-P midway, random 1..40 bytes, 0..8 leading zero bytes}; each result compared with the affine model (identity as (0,0)); algebraic identities [a]P+[b]P=[a+b]P, [n]P=O, commutativity on the library alone. " +
 			"Non-trivial: distinct calls in a corner class (equal, opposite, identity operand, scalar = 0 mod n, scalar >= n, leading zeros, off-curve neighbours for IsOnCurve).",
 		Assumptions: []string{"math/big", "the affine model in harness/oracle/weier (self-tested: published 2G/3G, [n]G=O, agreement with crypto/elliptic on P-256)"},
 		SelfTest:    weier.SelfTest,
@@ -31,7 +31,7 @@ func init() {
 			}
 			return m
 		},
-		Required: []string{"add ok", "double ok", "scalarmult ok", "basemult ok", "isoncurve true", "isoncurve false", "identities ok", "result=identity"},
+		Required: []string{"add ok", "double ok", "scalarmult ok", "basemult ok", "isoncurve true", "isoncurve false", "isoncurve: curve point with a coordinate in [n, p)", "identities ok", "result=identity"},
 	})
 }
 
@@ -173,6 +173,9 @@ func judge(class string, key []byte, o *fw.Obs) {
 		}
 		o.Nontrivial()
 		o.Count(fmt.Sprintf("isoncurve %v", want))
+		if want && (x.Cmp(n) >= 0 || y.Cmp(n) >= 0) {
+			o.Count("isoncurve: curve point with a coordinate in [n, p)")
+		}
 		if got != want {
 			o.Fail("isoncurve", "IsOnCurve(%x, %x) = %v, curve equation says %v", x, y, got, want)
 		}
@@ -215,7 +218,56 @@ func judge(class string, key []byte, o *fw.Obs) {
 
 // ---------------------------------------------------------------------------
 
+// boundaryPoints are curve points with a coordinate in [n, p) or close to 0: x = p-j for small j
+// (lifted), and y = p-j / y = j for small j (x from a cube root of j^2-7). A random point has such a
+// coordinate with probability 2^-127, so they are constructed.
+var boundary []weier.Pt
+
+func boundaryPoints() []weier.Pt {
+	if boundary != nil {
+		return boundary
+	}
+	p := mc.P
+	for j := int64(1); j < 400 && len(boundary) < 24; j++ {
+		x := new(big.Int).Sub(p, big.NewInt(j))
+		if pt, ok := mc.LiftX(x); ok {
+			boundary = append(boundary, pt, mc.Neg(pt))
+		}
+	}
+	// cube roots: p = 1 mod 3; for p = 7 mod 9 a cubic residue a has the root a^((p+2)/9), for p = 4 mod 9 a^((2p+1)/9)
+	var e *big.Int
+	switch new(big.Int).Mod(p, big.NewInt(9)).Int64() {
+	case 7:
+		e = new(big.Int).Div(new(big.Int).Add(p, big.NewInt(2)), big.NewInt(9))
+	case 4:
+		e = new(big.Int).Div(new(big.Int).Add(new(big.Int).Lsh(p, 1), big.NewInt(1)), big.NewInt(9))
+	}
+	if e != nil {
+		found := 0
+		for j := int64(1); j < 4000 && found < 12; j++ {
+			a := new(big.Int).Mod(big.NewInt(j*j-7), p)
+			x := new(big.Int).Exp(a, e, p)
+			x3 := new(big.Int).Exp(x, big.NewInt(3), p)
+			if x3.Cmp(a) != 0 {
+				continue
+			}
+			y := big.NewInt(j)
+			if mc.OnCurve(x, y) {
+				pt := weier.Pt{X: x, Y: y}
+				boundary = append(boundary, pt, mc.Neg(pt)) // y = j and y = p-j
+				found++
+			}
+		}
+	}
+	return boundary
+}
+
 func randPoint(g *fw.Gen) weier.Pt {
+	if g.Rng.Intn(12) == 0 {
+		if b := boundaryPoints(); len(b) > 0 {
+			return b[g.Rng.Intn(len(b))]
+		}
+	}
 	switch g.Rng.Intn(6) {
 	case 0:
 		return mc.G()
@@ -326,6 +378,14 @@ func gen(g *fw.Gen) {
 				p = weier.Inf()
 			}
 			g.Emit("scalarmult", fw.Pack(cp(), encPt(p), k))
+		}
+	}
+	// every boundary point on both copies, as is
+	for i, bp := range boundaryPoints() {
+		for c := byte(0); c < 2; c++ {
+			if g.Own(i) {
+				g.Emit("isoncurve", fw.Pack([]byte{c}, bp.X.Bytes(), bp.Y.Bytes()))
+			}
 		}
 	}
 	for n := g.ShareOf(4000, 200000); n > 0; n-- {
